@@ -97,6 +97,9 @@ type RollConfig struct {
 	OpCountLimit                 IntType  // 算力限制，超过这个值会报错，0为无限，建议值30000
 	DefaultDiceSideExpr          string   // 默认骰子面数
 	defaultDiceSideExprCacheFunc *VMValue // expr的缓存函数
+	// 缓存函数是在哪一组语法开关下编译的: 同一段文本在不同开关下含义不同(f / b / p / a / c、位运算、语句)，
+	// 宿主在两次求值之间关掉某个开关后，缓存的编译结果不能继续使用
+	defaultDiceSideExprCacheKey syntaxSwitches
 
 	PrintBytecode bool // 执行时打印字节码
 	IgnoreDiv0    bool // 当div0时暂不报错
@@ -110,6 +113,21 @@ type RollConfig struct {
 type CustomDiceHandler func(ctx *Context, groups []string, payload any) (*VMValue, string, error)
 
 // CustomDiceParseResult aggregates the outcome of a custom dice parser invocation.
+// syntaxSwitches 影响同一段文本如何被编译的那些配置项
+type syntaxSwitches struct {
+	wod, coc, fate, dc          bool
+	noBitwise, noStmts, noNDice bool
+	parseExprLimit              uint64
+}
+
+func (c *RollConfig) syntaxSwitches() syntaxSwitches {
+	return syntaxSwitches{
+		wod: c.EnableDiceWoD, coc: c.EnableDiceCoC, fate: c.EnableDiceFate, dc: c.EnableDiceDoubleCross,
+		noBitwise: c.DisableBitwiseOp, noStmts: c.DisableStmts, noNDice: c.DisableNDice,
+		parseExprLimit: c.ParseExprLimit,
+	}
+}
+
 type CustomDiceParseResult struct {
 	Groups  []string
 	Display string
